@@ -66,4 +66,8 @@ Finally leave the worktree CLEAN (git checkout -- . inside the worktree) so that
 Use only `git apply`, `git diff`, `git status` and `git checkout -- .` in the worktree; never `git stash`, `git commit`,
 `git reset` or anything that touches refs (the worktree shares its repository with other people's work).
 Verify everything yourself before finishing: for each k: clean tree -> demo passes; apply patch -> 68 tests pass, demo
-fails; revert. Report briefly what you did. If you truly cannot find a second change, deliver one.""")
+fails; revert. Report briefly what you did. If you truly cannot find a second change, deliver one.
+Earlier rounds produced many changes in the most central functions of the files named above; prefer a different file or
+function than the first one that comes to mind, and a different kind of trigger than "one more nesting level".
+Finally: if, while exploring, you notice that the UNMODIFIED code already violates the property on some input (a silent
+wrong result, not a crash), describe that input and what you observed in two or three lines at the end of your report.""")
